@@ -316,8 +316,7 @@ Proof. destruct r as [m u p q pa h b]; destruct b as [s|]; reflexivity. Qed.
 Lemma spawn_repeat n : forall r, spawn n r = repeat r n.
 Proof.
   induction n as [|m IH]; intros r; [reflexivity|].
-  destruct m as [|k]; [reflexivity|].
-  cbn [spawn]. rewrite clone_request_same. cbn [repeat] in *. rewrite <- IH. reflexivity.
+  cbn [spawn]. rewrite clone_request_same. cbn [repeat]. rewrite IH. reflexivity.
 Qed.
 
 Lemma bodies n r :
